@@ -221,12 +221,16 @@ func (fr *Frame) execInstr(st *State, instr ssa.Instruction) {
 	case *ssa.Defer:
 		fr.defers = append(fr.defers, x.Common())
 		fr.deferPos = append(fr.deferPos, x.Pos())
-		if x.Block() != fr.fn.Blocks[0] {
-			// conditional defers are executed unconditionally by this model
-			fc.note("defer outside the entry block of " + funcKey(fr.fn) + " is treated as unconditional")
-		}
+		fr.deferBlk = append(fr.deferBlk, x.Block())
 	case *ssa.RunDefers:
 		for i := len(fr.defers) - 1; i >= 0; i-- {
+			db := fr.deferBlk[i]
+			if db != nil && !db.Dominates(x.Block()) {
+				if !blockReaches(db, x.Block()) {
+					continue // this defer statement cannot have been executed on a path to here
+				}
+				fc.note("defer in a block that does not dominate the return in " + funcKey(fr.fn) + " is treated as executed")
+			}
 			fr.doCall(st, nil, fr.defers[i], fr.deferPos[i])
 		}
 	case *ssa.Go:
@@ -310,8 +314,11 @@ func (fr *Frame) unop(st *State, x *ssa.UnOp) {
 	case token.ARROW:
 		// channel receive: value unknown; blocking not modelled
 		ch := fr.val(st, x.X)
-		_ = ch
 		fc.note("channel receive: value is unconstrained, blocking is not modelled")
+		if fc.w.watchChan(x.X.Type()) {
+			// a receive from a chan struct{} (never sent on: send scan) completes only once it is closed
+			fc.assume(st, tSel(fc.comp(st, fc.compChanClosed()), ch, SBool, nil))
+		}
 		if x.CommaOk {
 			v := fc.fresh("recv", fc.sortOf(x.Type().(*types.Tuple).At(0).Type()), x.Type().(*types.Tuple).At(0).Type())
 			ok := fc.fresh("recvok", SBool, types.Typ[types.Bool])
@@ -642,9 +649,51 @@ func (fr *Frame) mapUpdate(st *State, x *ssa.MapUpdate) {
 	fc.setComp(st, "MN_"+id, mk(fmt.Sprintf("(store %s %s (ite %s (select %s %s) (+ (select %s %s) 1)))", n.S, m.S, was.S, n.S, m.S, n.S, m.S), n.Sort, nil))
 }
 
+// compRangeIter holds, per range-over-map statement, the number of keys yielded so far.
+const compRangeIter = "RC_iter"
+
+func rangeIterKey(x *ssa.Range) Term {
+	return mk(fmt.Sprintf("(PObj (- %d))", 1000+x.Block().Index*1000+instrIndex(x)), SPtr, nil)
+}
+
+func instrIndex(in ssa.Instruction) int {
+	for i, o := range in.Block().Instrs {
+		if o == in {
+			return i
+		}
+	}
+	return 0
+}
+
 func (fr *Frame) rangeInstr(st *State, x *ssa.Range) {
 	// map (or string) iteration: the iterator is opaque; Next yields unconstrained keys
-	fr.setVal(x, fr.fc.fresh("rangeit", SInt, nil))
+	fc := fr.fc
+	fr.setVal(x, fc.fresh("rangeit", SInt, nil))
+	if _, isMap := x.X.Type().Underlying().(*types.Map); isMap {
+		fc.registerComp(compRangeIter, arraySort(SPtr, SInt))
+		cur := fc.comp(st, compRangeIter)
+		fc.setComp(st, compRangeIter, tStore(cur, rangeIterKey(x), tInt(0)))
+	}
+}
+
+// mapUnchangedInLoop reports whether the loop around a Next instruction leaves maps of the
+// ranged-over type alone (then the loop body runs exactly once per key).
+func (fr *Frame) mapUnchangedInLoop(x *ssa.Next, mt *types.Map) bool {
+	li := fr.loops[x.Block()]
+	if li == nil {
+		return false
+	}
+	_, comps, all := fr.loopWrites(li)
+	if all {
+		return false
+	}
+	d, _, _, _ := fr.fc.compMap(mt)
+	for _, c := range comps {
+		if strings.TrimPrefix(c, "~") == d {
+			return false
+		}
+	}
+	return true
 }
 
 func (fr *Frame) nextInstr(st *State, x *ssa.Next) {
@@ -662,9 +711,26 @@ func (fr *Frame) nextInstr(st *State, x *ssa.Next) {
 		if mt, isMap := r.X.Type().Underlying().(*types.Map); isMap && !x.IsString {
 			m := fr.val(st, r.X)
 			dom, val, _, _ := fc.compMap(mt)
+			if v.Sort != fc.sortOf(mt.Elem()) || k.Sort != fc.sortOf(mt.Key()) {
+				// "for k := range m": go/ssa leaves the unused component untyped
+				k = fc.fresh("nextk", fc.sortOf(mt.Key()), mt.Key())
+				v = fc.fresh("nextv", fc.sortOf(mt.Elem()), mt.Elem())
+				fc.assume(st, fc.typeInv(k, mt.Key(), 0))
+				fc.assume(st, fc.allocInv(k, mt.Key(), st.nextID, 0))
+			}
 			fc.assume(st, tImp(ok, mk(fmt.Sprintf("(and (select (select %s %s) %s) (= (select (select %s %s) %s) %s))",
 				fc.comp(st, dom).S, m.S, k.S, fc.comp(st, val).S, m.S, k.S, v.S), SBool, nil)))
-			fc.note("map iteration yields an arbitrary present key each step (order and exhaustiveness are not modelled)")
+			// the hidden counter: with the map left alone by the loop, the body runs once per key
+			fc.registerComp(compRangeIter, arraySort(SPtr, SInt))
+			rk := rangeIterKey(r)
+			cnt := fc.define("rcnt", tSel(fc.comp(st, compRangeIter), rk, SInt, types.Typ[types.Int]))
+			if fr.mapUnchangedInLoop(x, mt) {
+				fc.assume(st, mk(fmt.Sprintf("(= %s (< %s (select %s %s)))", ok.S, cnt.S, fc.comp(st, "MN_"+mapID(mt)).S, m.S), SBool, nil))
+				fc.note("map iteration: arbitrary order, each step yields a present key; the body runs len(map) times (the loop does not modify maps of this type); distinctness of the yielded keys is not modelled")
+			} else {
+				fc.note("map iteration yields an arbitrary present key each step (order and exhaustiveness are not modelled)")
+			}
+			fc.setComp(st, compRangeIter, tStore(fc.comp(st, compRangeIter), rk, mk(fmt.Sprintf("(ite %s (+ %s 1) %s)", ok.S, cnt.S, cnt.S), SInt, nil)))
 		}
 	}
 	fr.tuples[x] = []Term{ok, k, v}
@@ -830,4 +896,23 @@ func (fr *Frame) atStore(st *State, p Term, pos token.Pos) {
 			}
 		}
 	}
+}
+
+// blockReaches reports whether control can flow from block a to block b.
+func blockReaches(a, b *ssa.BasicBlock) bool {
+	seen := map[*ssa.BasicBlock]bool{}
+	stack := []*ssa.BasicBlock{a}
+	for len(stack) > 0 {
+		n := stack[len(stack)-1]
+		stack = stack[:len(stack)-1]
+		if n == b {
+			return true
+		}
+		if seen[n] {
+			continue
+		}
+		seen[n] = true
+		stack = append(stack, n.Succs...)
+	}
+	return false
 }
